@@ -1333,13 +1333,14 @@ def disclosure_monitor(lines, out):
         if name == "SUBQ" and o[0][:1] == [0] and len(o[0]) > 1:
             q = d.get("query")
             if q is not None:
-                # projection item k -> the signal it shows (plain identifier or LAG of one), else None
-                shown = []
+                # field name -> the signal it shows: a plain identifier is reported under its path or its alias (LAG
+                # fields and computed ones are left to C12's reading; through the sdv handler a response is a map,
+                # so fields are matched by name, not by position)
+                shown = {}
                 for it in q[0]:
                     e = strip(it[1]) if it[0] != "wild" else None
-                    if e is not None and e[0] == "lag":
-                        e = strip(e[1])
-                    shown.append(e[1] if e is not None and e[0] == "id" else None)
+                    if e is not None and e[0] == "id":
+                        shown[it[2] if it[0] == "alias" else e[1]] = e[1]
                 subs[o[0][1]] = (d["p"], shown, d["sql"])
             rows = o[1:]
         elif name == "UPDATE":
@@ -1354,9 +1355,8 @@ def disclosure_monitor(lines, out):
             if h not in subs:
                 continue
             p, shown, sql_text = subs[h]
-            if len(shown) != len(fs):
-                continue            # through the sdv handler a response is a map: positions are lost
-            for path, (fname, v) in zip(shown, fs):
+            for (fname, v) in fs:
+                path = shown.get(fname)
                 if path is None or v[0] == E.NA:
                     continue
                 c = P.can(p, "read", path, ticked)
